@@ -4,7 +4,7 @@ PROPS = {}
 PROPS["C17"] = dict(
     driver="oracle",
     props_file="Props/C17.v",
-    coq_targets=["Oracle/Check.vo", "Oracle/Proofs.vo", "Oracle/Sound.vo"],
+    coq_targets=["Oracle/Check.vo", "Oracle/Proofs.vo", "Oracle/Sound.vo", "Oracle/LinkServiceOracle.vo"],
     check_module="Oracle.Check",
     check_fn="check_case_c",
     case_type="ccase",
@@ -39,5 +39,6 @@ PROPS["C17"] = dict(
                  "run_wfb (hypothesis of one_value_per_successful_batch, stamped_with_block_time, keeps_newest_latest_history, "
                  "newest_min_latest_history_produced): the service module completes a batch only while it is running; validated on "
                  "every generated history by sevs_consistent (real BatchState, batch counter and threshold snapshot before every "
-                 "completed batch) - a violation is reported as a divergence"],
+                 "completed batch) - a violation is reported as a divergence; since round 3 it is also DERIVED from the service group's model "
+                 "(theorems service_callbacks_find_batch_running, run_wfb_from_service_model)"],
 )
